@@ -7,6 +7,7 @@ import (
 	"github.com/shpandrak/shpanstream/stream"
 	"github.com/shpandrak/shpanstream/utils/timeseries"
 	"github.com/shpandrak/shpanstream/utils/timeseries/tsquery"
+	"slices"
 )
 
 // AppendFieldFilter appends a new field to the existing result using the provided field.
@@ -33,7 +34,8 @@ func (a AppendFieldFilter) Filter(ctx context.Context, result Result) (Result, e
 	}
 
 	return NewResult(
-		append(result.FieldsMeta(), *fieldMeta),
+		// Clip before appending so that the caller's metadata/row slices are never written to (spare capacity)
+		append(slices.Clip(result.FieldsMeta()), *fieldMeta),
 		stream.MapWithErrAndCtx(result.Stream(), func(ctx context.Context, record timeseries.TsRecord[[]any]) (timeseries.TsRecord[[]any], error) {
 			value, err := valueSupplier(ctx, record)
 			if err != nil {
@@ -41,7 +43,7 @@ func (a AppendFieldFilter) Filter(ctx context.Context, result Result) (Result, e
 			}
 			return timeseries.TsRecord[[]any]{
 				Timestamp: record.Timestamp,
-				Value:     append(record.Value, value),
+				Value:     append(slices.Clip(record.Value), value),
 			}, nil
 
 		})), nil
